@@ -284,6 +284,21 @@ def run_prelude(q, r, case):
     """the history before the judged read; returns the (per-quantity, global) sample size that is
     configured at the end.  Every variant ends with the mean-and-std strategy and no range."""
     per, glob = case["per"], case["global"]
+    ev = r._DerivedValue__evaluators["monte-carlo"]
+    empty = [False]
+
+    def seen_empty():
+        # a simulation in which EVERY draw is undefined leaves an empty stored set; the library then
+        # simulates again on each access and a pair cached from the empty set (nan) can survive:
+        # such cases are skipped (counted), not judged — see notes/C02.md
+        if ev.raw_samples.size == 0 and getattr(r.error_method, "value", "") == "monte-carlo":
+            empty[0] = True
+
+    def read():
+        _ = r.value
+        seen_empty()      # checked between the two reads: the second one would simulate again
+        _ = r.error
+        seen_empty()
     mc_on = lambda: setattr(r, "error_method", q.ErrorMethod.MONTE_CARLO)  # noqa: E731
     for op in case.get("pre", []):
         k = op[0]
@@ -295,56 +310,67 @@ def run_prelude(q, r, case):
             else:
                 lo, hi = -1.0, 1.0
             if k == "range":
-                _ = r.value, r.error
+                read()
             r.mc.set_xrange(lo, hi)
             if k == "range":
-                _ = r.value, r.error          # caches the moments of the windowed subset
+                read()
             r.mc.set_xrange()                 # range removed: plain default configuration again
         elif k == "size":
             r.mc.sample_size = op[1]
-            _ = r.value, r.error
+            read()
             r.mc.sample_size = per            # assigning a size (0 = follow the global one) redraws
         elif k == "size-reset":
             r.mc.sample_size = op[1]
-            _ = r.value, r.error
+            read()
             r.mc.reset_sample_size()          # keeps the stored simulation (C16 notes) ...
             r.recalculate()                   # ... so the result is recalculated explicitly
             per = 0
         elif k == "mode":
             r.mc.use_mode_with_confidence(op[1])
-            _ = r.value, r.error
+            try:
+                read()
+            except ValueError:
+                pass      # numpy.histogram cannot bin samples that are equal up to an ulp (C16's subject)
             r.mc.use_mean_and_std()
         elif k == "custom":
             r.mc.use_custom_value_and_error(op[1], op[2])
-            _ = r.value, r.error
+            read()
             r.mc.use_mean_and_std()
         elif k == "conf":
             r.mc.confidence = op[1]
-            _ = r.value, r.error
+            read()
         elif k == "recalc":
-            _ = r.value, r.error
+            read()
             r.recalculate()
         elif k == "method":
-            _ = r.value, r.error
+            read()
+            # the derivative method refuses some inputs on purpose (negative quadrature sum for a
+            # jointly non-positive-definite assignment): not C02's subject, the read is not judged
             if case["method"] == "global":
                 q.set_error_method(q.ErrorMethod.DERIVATIVE)
-                _ = r.value, r.error
+                try:
+                    read()
+                except Exception:  # noqa: BLE001
+                    pass
                 q.set_error_method(q.ErrorMethod.MONTE_CARLO)
             else:
                 r.error_method = q.ErrorMethod.DERIVATIVE
-                _ = r.value, r.error
+                try:
+                    read()
+                except Exception:  # noqa: BLE001
+                    pass
                 mc_on()
         elif k == "global-recalc":
-            _ = r.value, r.error
+            read()
             glob = op[1]
             q.set_monte_carlo_sample_size(glob)
             r.recalculate()
         elif k == "read":
-            _ = r.value, r.error
+            read()
             _ = r.mc.samples()
         else:
             raise KeyError(k)
-    return per, glob
+    return per, glob, empty[0]
 
 
 def observe(q, case):
@@ -379,7 +405,7 @@ def observe(q, case):
                 r.error_method = q.ErrorMethod.MONTE_CARLO
             if case["per"]:
                 r.mc.sample_size = case["per"]
-            per_now, glob_now = run_prelude(q, r, case)
+            per_now, glob_now, empty_seen = run_prelude(q, r, case)
             out["per_final"], out["global_final"] = per_now, glob_now
             out["config"] = [r.mc.strategy, tuple(r.mc.xrange)]
             s = r.mc.samples()
@@ -387,7 +413,7 @@ def observe(q, case):
             out["value"], out["error"] = float(r.value), float(r.error)
             # when every draw is undefined the stored set is empty and the library simulates
             # again on each access: value/error then belong to another simulation (case skipped)
-            out["redrawn"] = len(cap.calls) != out["ncalls"]
+            out["redrawn"] = len(cap.calls) != out["ncalls"] or empty_seen
             out["samples"] = np.array(s, dtype=float)
             out["order"] = M.source_order(q, r, meas)
             out["R"] = M.corr_matrix_impl(q, meas, out["order"])
